@@ -180,6 +180,8 @@ func TestVerif_C02(t *testing.T) {
 		switch label {
 		case "stalled":
 			h = e1GenStalledHistory(rng, p.DryRun)
+		case "shrink":
+			h = e1GenShrinkKeptHistory(rng)
 		default:
 			h = e1GenHistory(rng, p)
 		}
@@ -263,6 +265,10 @@ func TestVerif_C02(t *testing.T) {
 	// a whole batch of traces is decided while the outgoing queue (100 000 slots) is full and the upstream blocks
 	run.Cases("stalled-upstream", run.N(4, 40), func(i int, rng *verifkit.Rand) {
 		one("stalled", rng, E1Profile{DryRun: i%4 == 3}, i)
+	})
+	// a reload shrinks the kept-decision cache below the number of remembered kept traces; the newest ones get late spans
+	run.Cases("shrink-kept-cache", run.N(20, 300), func(i int, rng *verifkit.Rand) {
+		one("shrink", rng, E1Profile{}, i)
 	})
 }
 
